@@ -186,38 +186,49 @@ def build(u):
 
     # ---- encode_vlq ---------------------------------------------------------------------------
     v = u.item("src/encoder.rs", "pub fn encode_vlq(")
+    # the sidecar speaks about the function's own parameter / local names, whatever they are called
+    raw = v.raw_text
+    mp = re.search(r"fn\s+encode_vlq\s*\(\s*(\w+)\s*:\s*&mut\s+Vec<u8>\s*,\s*(\w+)\s*:\s*u32\s*,\s*(\w+)\s*:\s*u32", raw)
+    mn = re.search(r"let\s+mut\s+(\w+)\s*=\s*if\b", raw)
+    if not mp or not mn:
+        raise Lost("encode_vlq: signature / accumulator shape changed")
+    out, a, b = mp.group(1), mp.group(2), mp.group(3)
+    num = mn.group(1)
+    N = dict(out=out, a=a, b=b, num=num)
     v.sig("encode_vlq", [
         # the domain precondition belongs to the functional / alphabet views; in the C17 view encode_vlq is total
-        ("encode_vlq.requires", "contract", "requires (a >= b ==> a - b < 0x8000_0000) && (a < b ==> b - a < 0x7fff_ffff)", F + W),
-        ("encode_vlq.len", "contract", "ensures final(out)@.len() > old(out)@.len(),"),
-        ("encode_vlq.ensures", "contract", "  final(out)@ == old(out)@ + vlq_digits(zz(a as int, b as int)),", F),
-        ("encode_vlq.wire", "contract", "  all_wire(old(out)@) ==> all_wire(final(out)@),", W + F),
+        ("encode_vlq.requires", "contract", "requires ({a} >= {b} ==> {a} - {b} < 0x8000_0000) && ({a} < {b} ==> {b} - {a} < 0x7fff_ffff)".format(**N), F + W),
+        ("encode_vlq.len", "contract", "ensures final({out})@.len() > old({out})@.len(),".format(**N)),
+        ("encode_vlq.ensures", "contract", "  final({out})@ == old({out})@ + vlq_digits(zz({a} as int, {b} as int)),".format(**N), F),
+        ("encode_vlq.wire", "contract", "  all_wire(old({out})@) ==> all_wire(final({out})@),".format(**N), W + F),
     ])
     v.loop("encode_vlq", 1, [
-        ("encode_vlq.loop1.inv", "contract", "invariant_except_break out@ + vlq_digits(num as nat) == old(out)@ + vlq_digits(zz(a as int, b as int))", F),
-        ("encode_vlq.loop1.len", "contract", "invariant out@.len() >= old(out)@.len(),"),
-        ("encode_vlq.loop1.wire", "contract", "  all_wire(old(out)@) ==> all_wire(out@),", W + F),
-        ("encode_vlq.loop1.exit0", "contract", "ensures out@.len() > old(out)@.len(),"),
-        ("encode_vlq.loop1.exit", "contract", "  out@ == old(out)@ + vlq_digits(zz(a as int, b as int)),", F),
-        ("encode_vlq.loop1.dec", "contract", "decreases num"),
+        ("encode_vlq.loop1.inv", "contract", "invariant_except_break {out}@ + vlq_digits({num} as nat) == old({out})@ + vlq_digits(zz({a} as int, {b} as int))".format(**N), F),
+        ("encode_vlq.loop1.len", "contract", "invariant {out}@.len() >= old({out})@.len(),".format(**N)),
+        ("encode_vlq.loop1.wire", "contract", "  all_wire(old({out})@) ==> all_wire({out}@),".format(**N), W + F),
+        ("encode_vlq.loop1.exit0", "contract", "ensures {out}@.len() > old({out})@.len(),".format(**N)),
+        ("encode_vlq.loop1.exit", "contract", "  {out}@ == old({out})@ + vlq_digits(zz({a} as int, {b} as int)),".format(**N), F),
+        ("encode_vlq.loop1.dec", "contract", "decreases {num}".format(**N)),
     ])
     v.body_start("encode_vlq", "encode_vlq.hint.shl", "hint",
-                 "proof {\n"
-                 "  if a >= b { let x = (a - b) as u32; assert(x < 0x8000_0000u32 ==> (x << 1) == 2 * x) by (bit_vector); }\n"
-                 "  else { let x = (b - a) as u32; assert(x < 0x7fff_ffffu32 ==> (x << 1) == 2 * x) by (bit_vector); }\n"
-                 "  assert(forall|x: u32| #[trigger] (x << 1) <= 0xffff_fffeu32) by (bit_vector);\n"
-                 "}")
+                 ("proof {{\n"
+                  "  if {a} >= {b} {{ let x = ({a} - {b}) as u32; assert(x < 0x8000_0000u32 ==> (x << 1) == 2 * x) by (bit_vector); }}\n"
+                  "  else {{ let x = ({b} - {a}) as u32; assert(x < 0x7fff_ffffu32 ==> (x << 1) == 2 * x) by (bit_vector); }}\n"
+                  "  assert(forall|x: u32| #[trigger] (x << 1) <= 0xffff_fffeu32) by (bit_vector);\n"
+                  "  assert(forall|x: u32| #[trigger] (x << 1) | 1 == (x << 1) + 1) by (bit_vector);\n"
+                  "}}").format(**N))
     v.loop_body_start("encode_vlq", 1, "encode_vlq.hint.digit", "hint",
-                      "let ghost num0 = num;\n"
-                      "let ghost out0 = out@;\n"
-                      "proof {\n"
-                      "  lemma_b64_chars_table();\n"
-                      "  assert(num0 & 0b11111 == num0 % 32) by (bit_vector);\n"
-                      "  assert(num0 >> 5 == num0 / 32) by (bit_vector);\n"
-                      "  assert(forall|d: u32| d < 32 ==> #[trigger] (d | (1u32 << 5)) == d + 32) by (bit_vector);\n"
-                      "  assert(forall|x: Seq<u8>, y: Seq<u8>, z: Seq<u8>| #[trigger] ((x + y) + z) =~= x + (y + z));\n"
-                      "  assert(forall|i: int| 0 <= i < 64 ==> is_wire(#[trigger] b64(i)));\n"
-                      "}")
+                      ("let ghost num0 = {num};\n"
+                       "proof {{\n"
+                       "  lemma_b64_chars_table();\n"
+                       "  assert(num0 & 0b11111 == num0 % 32) by (bit_vector);\n"
+                       "  assert(num0 >> 5 == num0 / 32) by (bit_vector);\n"
+                       "  assert(forall|d: u32| d < 32 ==> #[trigger] (d | (1u32 << 5)) == d + 32) by (bit_vector);\n"
+                       "  assert(forall|d: u32| d < 32 ==> #[trigger] (d | 0x20u32) == d + 32) by (bit_vector);\n"
+                       "  assert(forall|x: u32| #[trigger] (x & 0x1fu32) < 32) by (bit_vector);\n"
+                       "  assert(forall|x: Seq<u8>, y: Seq<u8>, z: Seq<u8>| #[trigger] ((x + y) + z) =~= x + (y + z));\n"
+                       "  assert(forall|i: int| 0 <= i < 64 ==> is_wire(#[trigger] b64(i)));\n"
+                       "}}").format(**N))
     v.body_start("encode_vlq", "canary.encode_vlq", "canary", "proof { assert(false); }")
     v.loop_body_start("encode_vlq", 1, "canary.encode_vlq.loop1", "canary", "proof { assert(false); }")
 
